@@ -280,6 +280,14 @@ func genC12(tier string, seed uint64, emit func(string)) {
 			}
 		}
 	}
+	// CONFIG GET returns, in request order, the values last stored with CONFIG SET - under exactly the names used (names
+	// in several letter cases, also of the parameters the server reads itself)
+	for _, name := range []string{"timeout", "Timeout", "TIMEOUT", "port", "Port", "PORT", "tls-port", "Tls-Port", "TLS-PORT", "tls-cert-file", "TLS-Cert-File",
+		"tls-key-file", "Tls-Key-File", "tls-ca-cert-file", "TLS-CA-CERT-FILE", "maxmemory", "MaxMemory", "x y", ""} {
+		emit(c12Line([][][]byte{bs("CONFIG", "SET", name, "v1"), bs("CONFIG", "GET", name)}, "expect 1 "+arrayReply([]string{name, "v1"})))
+		emit(c12Line([][][]byte{bs("CONFIG", "SET", name, "v1", "other", "o"), bs("CONFIG", "SET", name, "v2"), bs("CONFIG", "GET", "other", name, "other")},
+			"expect 2 "+arrayReply([]string{"other", "o", name, "v2", "other", "o"})))
+	}
 	// wide composites: MGET / HMGET with many keys (sizes around internal table sizes); the keys are set one by one,
 	// MSET/HMSET iterate a Go map whose order the scripted double cannot follow for hundreds of entries
 	for _, n := range []int{255, 256, 257, 1024, 1100} {
@@ -343,7 +351,8 @@ func genC12(tier string, seed uint64, emit func(string)) {
 		filtered = append(filtered, m)
 	}
 	menus = append(filtered, bs("PING"), bs("PING", "hello"), bs("ECHO", "x\r\ny"), bs("CONFIG", "SET", "a", "1", "b", "2", "a", "3"), bs("CONFIG", "GET", "b", "a", "zz", "a"),
-		bs("CONFIG", "GET", "port"), bs("MSETNX", "s1", "3"), bs("MGET", "s1", "fresh1", "s7", "s1"))
+		bs("CONFIG", "GET", "port"), bs("CONFIG", "SET", "Tls-Port", "7443", "PORT", "1", "TLS-Cert-File", "x.pem"), bs("CONFIG", "GET", "Tls-Port", "tls-port", "PORT", "port", "TLS-Cert-File", "tls-cert-file"),
+		bs("CONFIG", "SET", "Timeout", "5"), bs("CONFIG", "GET", "Timeout", "timeout", "TIMEOUT"), bs("MSETNX", "s1", "3"), bs("MGET", "s1", "fresh1", "s7", "s1"))
 	for _, prog := range [][][][]byte{
 		{bs("MSETNX", "a", "1", "b", "2"), bs("MGET", "a", "b")},
 		{bs("MSETNX", "a", "1", "b", "2", "c", "3"), bs("MSETNX", "a", "9"), bs("MGET", "a", "b", "c")},
